@@ -153,12 +153,17 @@ func (sp *urlSearchParams) getFirstValue(name string) (string, bool) {
 	return "", false
 }
 
-func parseSearchQuery(query string) (ret searchParams) {
+// parseSearchQuery parses the string given to the URLSearchParams constructor: one leading '?' is dropped.
+func parseSearchQuery(query string) searchParams {
+	return parseQuery(strings.TrimPrefix(query, "?"))
+}
+
+// parseQuery parses a query without its '?' delimiter, such as the RawQuery of a URL: a '?' at its start is
+// part of the first name.
+func parseQuery(query string) (ret searchParams) {
 	if query == "" {
 		return
 	}
-
-	query = strings.TrimPrefix(query, "?")
 
 	for _, v := range strings.Split(query, "&") {
 		if v == "" {
